@@ -113,7 +113,9 @@ def do_sort_order(ctx, t, spec, order, axis, desc, arg_kind='list'):
     before = snap.snap(t)
     arg = {'list': list, 'tuple': tuple,
            'ndarray': lambda o: np.array(o, dtype=str),
-           'objarray': lambda o: np.array(o, dtype=object)}[arg_kind](order)
+           'objarray': lambda o: np.array(o, dtype=object),
+           'pandas-index': lambda o: __import__('pandas').Index(
+               o, dtype=object)}[arg_kind](order)
     res = t.sort_order(arg, axis=axis)
     ctx.count('sort_order')
     exp = permuted(spec, list(order), axis)
@@ -198,7 +200,8 @@ def run_random(ctx, index):
         r.shuffle(order)
         desc['order'] = order
         do_sort_order(ctx, t, spec, order, axis, desc,
-                      r.choice(['list', 'tuple', 'ndarray', 'objarray']))
+                      r.choice(['list', 'tuple', 'ndarray', 'objarray',
+                                'pandas-index']))
         nontrivial = nontrivial and order != ids
     elif op in ('sort', 'sort_f'):
         if op == 'sort_f':
